@@ -34,6 +34,8 @@ class EnumOrdinalEncoder(QuasiLazyEncoder):
 
     def _do_get_all_design_vectors(self, existence: NodeExistence, matrix: np.ndarray, design_vars: List[DiscreteDV]) \
             -> np.ndarray:
+        if len(design_vars) == 0:  # Only one matrix for this existence pattern: no (active) design variables
+            return np.zeros((matrix.shape[0], 0), dtype=int)
         design_vectors = np.array([np.arange(matrix.shape[0])]).T
         return design_vectors
 
